@@ -92,10 +92,10 @@ def rst_cases(prefix, n):
 def run_pure(ctx):
     checks, _ = FW.run_cases(ctx, [("corpus", t) for t in FW.CORPUS] + fixws_cases("C20-fw", ctx.n(250, 6000), ctx.n(150, 4000), ctx.n(80, 1500)))
     FW.evaluate(ctx, "c20fw", "fix_whitespace on corpus and grammar texts", checks)
-    wcases = list(W.CORPUS) + [W.gen_case(env.rng("C20-wrap", i)) for i in range(ctx.n(600, 12000))]
+    wcases = list(W.CORPUS) + [W.gen_case(env.rng("C20-wrap", i)) for i in range(ctx.n(500, 12000))]
     wchecks = W.run_wrap(ctx, wcases)
     FW.evaluate(ctx, "c20wrap", "wrap on corpus and grammar comments x widths/offsets/indents", wchecks)
-    rchecks = W.run_rst(ctx, [("ends with quote\"", 72, 4, None), ("a `b`", 72, 4, None), ("", 72, 0, None)] + rst_cases("C20-rst", ctx.n(200, 3000)))
+    rchecks = W.run_rst(ctx, [("ends with quote\"", 72, 4, None), ("a `b`", 72, 4, None), ("", 72, 0, None)] + rst_cases("C20-rst", ctx.n(150, 3000)))
     cchecks = W.run_contracts(ctx, ctx.n(150, 3000))
     FW.evaluate(ctx, "c20rst", "rst (plain path, quote guard, pandoc decision), textwrap contract, Metadata.doc, character classes", rchecks + cchecks)
 
@@ -117,10 +117,10 @@ def e2e_jobs(ctx):
     # where the comment sits in the source: every element kind documented only by a detached comment / only by a trailing one /
     # by several (controls for the selection leading > trailing > detached); the words must arrive in the emitted docstrings
     for name, comments in D.placements().items():
-        if ctx.tier == "quick" and name == "detached-only":
+        if ctx.tier == "quick" and name in ("detached-only", "leading+detached", "trailing+detached"):
             continue                        # corpus/C20/comment-detached-only.json is this very case and has already been queued
         jobs.append(("placement:" + name, comments, None))
-    for i in range(ctx.n(3, 40)):
+    for i in range(ctx.n(2, 40)):
         jobs.append(("grammar", grammar_comments(env.rng("C20-e2e-comments", i)), None))
     hz = []
     for sig, texts in D.HAZARDS.items():
